@@ -40,29 +40,25 @@ def with_empty_frames(data: bytes, positions=(0, 2)) -> bytes:
 
 def options_only_first_frame() -> bytes:
     """A delimited stream whose first frame holds only the options row and is exactly 10 bytes
-    long (so the stream starts 0A 0A 08), followed by a frame with statements."""
-    import io  # noqa: PLC0415
-
-    from pyjelly.serialize.flows import ManualFrameFlow  # noqa: PLC0415
-    from pyjelly.serialize.ioutils import write_delimited  # noqa: PLC0415
-
-    from mc.terms import I, L  # noqa: PLC0415
-
+    long (so the stream starts 0A 0A 08), followed by a frame with statements. Built with the
+    wire codec alone, so that it does not depend on how the library cuts frames."""
     for g in (False, True):
         for r in (False, True):
             for lt in (0, 1):
-                opts = DR.make_options("triple", (8, 0, 0), 250, True, lt, generalized=g, rdf_star=r)
-                opts.flow = ManualFrameFlow(logical_type=lt)
-                stream = DR.g_stream("triple", opts)
-                stream.enroll()
-                out = io.BytesIO()
-                write_delimited(stream.flow.to_stream_frame(), out)
-                if len(out.getvalue()) != 11:  # 1 length byte + 10
+                opts = {"physical_type": 1, "logical_type": lt, "generalized_statements": g,
+                        "rdf_star": r, "max_name_table_size": 8, "version": 1}
+                first = jwire.enc_frame([jwire.mkrow("options", opts)])
+                if len(first) != 10:
                     continue
-                for i in range(3):
-                    stream.triple(T.st_to_generic((I(f"http://a/s{i}"), I("http://a/p"), L(str(i)))))
-                write_delimited(stream.flow.to_stream_frame(), out)
-                return out.getvalue()
+                rows = [jwire.mkrow("name", {"id": 0, "value": f"http://a/{n}"})
+                        for n in ("s0", "p", "s1", "s2")]
+                rows.append(jwire.mkrow("triple", {"s": ("iri", 0, 1), "p": ("iri", 0, 0),
+                                                   "o": ("literal", "0", None, None)}))
+                rows.append(jwire.mkrow("triple", {"s": ("iri", 0, 0),
+                                                   "o": ("literal", "1", None, None)}))
+                rows.append(jwire.mkrow("triple", {"s": ("iri", 0, 0),
+                                                   "o": ("literal", "2", None, None)}))
+                return jwire.write_delimited([first, jwire.enc_frame(rows)])
     raise HarnessError("no option combination gives a 10-byte options-only frame")
 
 
@@ -143,6 +139,15 @@ def base_streams(size: str = "small") -> tuple:
     out.append(_entry("exact128/triple", "triple", exact_frames_stream((128, 256, 384)), True))
     e = _entry("frame20k/triple", "triple", exact_frames_stream((20000,), pad=2), True)
     e["big"] = True  # (restricted cut / schedule sets in C09 and C10)
+    out.append(e)
+    # the FIRST frame (options row included) lies between 8 KiB and 16 KiB, small frames follow
+    from mc.terms import I as _I, L as _L  # noqa: PLC0415
+
+    seq9 = [(_I("http://a/s0"), _I("http://a/p"), _L("n" * 9000))] + [
+        (_I(f"http://a/s{i}"), _I("http://a/p"), _L(str(i))) for i in range(1, 4)]
+    e = _entry("first9k/triple", "triple",
+               DR.g_write(seq9, "triple", DR.make_options("triple", (16, 4, 4), 1, True)), True)
+    e["big"] = True
     out.append(e)
     if size == "full":
         # boundary-crossing streams: frames larger than BufferedReader's 8 KiB buffer and than
